@@ -229,7 +229,11 @@ CLAIMED.update({
         text='Theorems hc_restored (after any well-bracketed sequence of context entries/exits - nested, left by '
              'exception, decorator - around arbitrary possibly-failing calls the flag and stack are as before), '
              'hc_on_inside, names_restricted + hcChar_class, enum_restricted, breach_raises_iff, file_set_numbers, '
-             'pattern_pinned / enums_eq (generated tables). Tie: flag traces of random context shapes vs the model; '
+             'pattern_pinned / enums_eq (generated tables); channels_in_exactly_one_frame (Model/Checks.lean with the mode '
+             'flag: a write accepted in the mode has every channel of every logical file listed exactly once by the frames '
+             'of that logical file), channel_counts_only_in_mode (outside the mode the checks are exactly those of C07 / '
+             'C12); streams file-set-number-sequences and reference-histories in the mode (what write answers vs '
+             'acceptWriteHc; model-free: no written file with a channel in no or several frames). Tie: flag traces of random context shapes vs the model; '
              'validate_string vs the class for every code point < 256; 13 aspects x met/breached x inside/outside; '
              'setter_names_restricted / setter_enums_restricted / units_restricted (converter model) with the setters '
              'stream over every name-like, enumerated and units-carrying attribute of every object type.',
